@@ -685,3 +685,35 @@ def rejecting_conds(body):
         if not (reach & succ):
             out.append(F.edge_cond(body, e))
     return out
+
+
+def success_conds(body, node, callee_rx):
+    """conditions dominating `node` which say that a call matching callee_rx returned Ok / Some /
+    true (through `?`, `if let Err(..) = .. {continue}`, `if !f() {return}` ...)."""
+    rx = re.compile(callee_rx) if isinstance(callee_rx, str) else callee_rx
+    out = []
+    for c in F.dominating_conds(body, node):
+        if c.kind == 'disc':
+            good = (c.value == 0) or (isinstance(c.value, tuple) and c.value[0] == 'not' and '0' not in c.value[1])
+            # for Option, Some is 1: `if let Some(x) = f()`
+            e = c.expr
+            m = e.mentions_call(rx)
+            if m is None:
+                continue
+            is_option = m.c is not None and m.c.dest and body.local_ty(m.c.dest[0]).startswith('std::option::Option')
+            through_try = e.mentions_call(r'Try>::branch$|Try::branch$') is not None
+            if is_option and not through_try:
+                good = (c.value == 1) or (isinstance(c.value, tuple) and c.value[0] == 'not' and '1' not in c.value[1])
+            if good:
+                out.append(c)
+        elif c.kind == 'bool' and c.truth:
+            if c.expr.mentions_call(rx) is not None and not _negated_inside(c.expr, rx):
+                out.append(c)
+    return out
+
+
+def _negated_inside(e, rx):
+    for x in e.walk():
+        if x.k == 'un' and x.a == 'Not' and x.b.mentions_call(rx) is not None:
+            return True
+    return False
